@@ -122,7 +122,7 @@ class World:
             return        # library code run while an aborted run is unwound
         if self.multi and prop in ('C10', 'C11', 'C12', 'C18'):
             return        # per-manager limits: not judged when two managers transfer
-        if self.serial and prop not in ('C01', 'C02', 'C03', 'C05', 'C06', 'C09', 'C16'):
+        if self.serial and prop not in ('C01', 'C02', 'C03', 'C05', 'C06', 'C09', 'C16', 'C17'):
             # serial mode (no threads) with Ctrl-C inside a request: only the
             # effect properties are judged; the statements about callbacks,
             # cancellation entry points and stages are about the threaded manager
@@ -596,7 +596,14 @@ class World:
         if t['outcome'] is not None or t['future'] is None:
             return
         try:
-            v = t['future'].result()
+            try:
+                v = t['future'].result()
+            finally:
+                # "once the future is done no temporary file remains": the
+                # directory at the moment result() lets the caller go
+                if t['type'] == 'download' and isinstance(t.get('path'), str) and \
+                        t['spec'].get('dst') == 'path':
+                    t['temps_at_result'] = list(self.fs.temps_of(t['path']))
             t['outcome'] = ('ok', v, self.sim.stamp())
         except KeyboardInterrupt as e:
             if self.serial:
@@ -659,6 +666,11 @@ class World:
                             n0[0] = sim.interrupts_delivered
                 except _WithExit as e:
                     self.driver_log.append((sim.stamp(), 'with_exit_done', repr(e)))
+                except Exception as e:   # noqa
+                    if getattr(e, '_sim_with_exit', False):
+                        self.driver_log.append((sim.stamp(), 'with_exit_done', repr(e)))
+                    else:
+                        raise
                 except KeyboardInterrupt as e:
                     self.driver_log.append((sim.stamp(), 'with_exit_kbi', repr(e)))
                 if sim.interrupts_delivered == n0[0]:
@@ -781,7 +793,16 @@ class World:
                         pass
             elif op == 'with_raise':
                 kind, msg = a[1], a[2]
-                exc = KeyboardInterrupt(msg) if kind == 'kbi' else _WithExit(msg)
+                if kind == 'kbi':
+                    exc = KeyboardInterrupt(msg)
+                elif kind == 'cancelerr':
+                    # e.g. an unguarded future.result() of a transfer the user
+                    # cancelled: still a non-interrupt exception in the block
+                    from s3transfer.exceptions import CancelledError as _CE
+                    exc = _CE(msg)
+                    exc._sim_with_exit = True
+                else:
+                    exc = _WithExit(msg)
                 m = str(exc) or repr(exc)
                 self._arm_mass_cancel(
                     'with', m, 'CancelledError' if kind == 'kbi' else 'FatalError',
